@@ -20,6 +20,10 @@ sys.path.insert(0, os.path.dirname(os.path.abspath(__file__)))
 import vlib
 from vlib import Result, log
 
+# multipliers of the quick tier's case counts: unchanged source / source that differs from baseline_src.json
+BASE_SCALE = 3.0
+CHANGED_SCALE = 12.0
+
 KNOWN = os.path.join(vlib.VERIF, "known_findings.json")
 
 
@@ -69,6 +73,14 @@ def main():
         notes.append("translator failed: " + out_t[-500:])
     elif "problems" in out_t:
         notes.append(out_t.strip()[-800:])
+
+    # ---- 0b effort: the quick tier samples more when the code of /repo/src is not the tree the model was validated on ----
+    import gen
+    changed_src = vlib.src_changed_files()
+    if "VERIF_SCALE" not in os.environ:
+        gen.SCALE = CHANGED_SCALE if changed_src else BASE_SCALE
+    if changed_src:
+        notes.append(f"source differs from the validated baseline (baseline_src.json) in {changed_src}: quick-tier effort x{gen.SCALE:g}")
 
     # ---- 1 proof obligations -------------------------------------------------------------
     ok, out = vlib.lake_build(list(mod.LEAN_MODULES) + ["driver"])
@@ -272,6 +284,8 @@ def main():
             "outcome_histogram": hist,
             "partial": getattr(mod, "PARTIAL", []),
             "notes": notes,
+            "effort_scale": gen.SCALE,
+            "source_changed_files": changed_src,
         },
         "assumptions": getattr(mod, "ASSUMPTIONS", []),
         "wall_s": round(wall, 2),
